@@ -49,7 +49,11 @@ namespace Oomd {
 StatsClient::StatsClient(const std::string& stats_socket_path)
     : stats_socket_path_(stats_socket_path) {
   serv_addr_.sun_family = AF_UNIX;
-  ::strcpy(serv_addr_.sun_path, stats_socket_path_.c_str());
+  serv_addr_.sun_path[0] = '\0';
+  // An over-long path is reported by msgSocket(); never copy past sun_path.
+  if (stats_socket_path_.size() < sizeof(serv_addr_.sun_path)) {
+    ::strcpy(serv_addr_.sun_path, stats_socket_path_.c_str());
+  }
 }
 
 std::optional<std::unordered_map<std::string, int>> StatsClient::getStats() {
@@ -124,6 +128,11 @@ int StatsClient::closeSocket() {
 
 std::optional<std::string> StatsClient::msgSocket(std::string msg) {
   std::array<char, 64> err_buf = {};
+  if (stats_socket_path_.size() >= sizeof(serv_addr_.sun_path)) {
+    std::cerr << "Error: stats socket path too long: " << stats_socket_path_
+              << std::endl;
+    return std::nullopt;
+  }
   int sockfd = ::socket(AF_UNIX, SOCK_STREAM, 0);
   if (sockfd < 0) {
     std::cerr << "Error: creating client socket: "
